@@ -186,6 +186,24 @@ pub fn run(args: &Args) -> Report {
                     cases.push(Case { text: render(&s2, &mut Rng(sseed), layout, false), family: "ifdata:ident-for-string", expect: None });
                 }
             }
+            // a definition by grammar with a conforming instance, and the same instance with a bare word in place of one of
+            // its strings (the instance is interpreted by the definition: the deviation is one the non-strict reader tolerates)
+            if d % 3 == 2 {
+                let case = crate::a2mlgen::gen_a2ml(&mut rng, 1 + d % 3);
+                for _ in 0..3 {
+                    let inst = crate::a2mlgen::gen_instance(&mut rng, &case.root);
+                    let doc = |content: &[String]| format!("ASAP2_VERSION 1 71\n/begin PROJECT p \"\"\n/begin MODULE m \"\"\n/begin A2ML\n{}\n/end A2ML\n/begin IF_DATA\n{}\n/end IF_DATA\n/end MODULE\n/end PROJECT\n", case.a2ml, content.join("\n"));
+                    let strings: Vec<usize> = (0..inst.len()).filter(|&i| inst[i].starts_with('"')).collect();
+                    if strings.is_empty() {
+                        continue;
+                    }
+                    cases.push(Case { text: doc(&inst), family: "a2ml-instance", expect: None });
+                    let mut i2 = inst.clone();
+                    i2[strings[rng.below(strings.len())]] = "bare_word".to_string();
+                    cases.push(Case { text: doc(&i2), family: "a2ml-instance:ident-for-string", expect: None });
+                    break;
+                }
+            }
             if d % 4 == 0 {
                 for m in crate::soup::token_mutations(&text, &mut rng, 3) {
                     cases.push(Case { text: m, family: "mutation", expect: None });
@@ -213,6 +231,9 @@ pub fn run(args: &Args) -> Report {
                 // with IF_DATA only the first sentence of the property applies: a problem inside IF_DATA makes strict
                 // loading fall back to uninterpreted content instead of failing
                 rep.bump("outcome:both-ok-ifdata");
+                if !log_text(ln).is_empty() {
+                    rep.bump("outcome:both-ok-ifdata-with-warnings");
+                }
                 if log_text(ln).is_empty() {
                     if ms != mn {
                         rep.fail("models-differ", input.clone(), "non-strict loading succeeds without warnings, but strict loading yields a different model".into());
